@@ -29,8 +29,8 @@ func Catalogue(syntax string) []Dev {
 	add := func(slot, name string, apply func(ws *WS)) {
 		out = append(out, Dev{Name: slot + "=" + name, Slot: slot, Apply: apply})
 	}
-	M := func(ws *WS) *Msg { return firstMsg(ws.Main()) }
-	F := func(ws *WS, n string) *Field { return nthField(M(ws), int(n[1]-'1')) }
+	M := func(ws *WS) *Msg { return ws.AM }
+	F := func(ws *WS, n string) *Field { return ws.AF[int(n[1]-'1')] }
 	lab := "optional"
 	if syntax != "proto2" {
 		lab = ""
@@ -69,7 +69,7 @@ func Catalogue(syntax string) []Dev {
 	inOneof := func(keepLabel bool) func(ws *WS) {
 		return func(ws *WS) {
 			m := M(ws)
-			fd := nthField(m, 0)
+			fd := ws.AF[0]
 			i := indexOf(m.Body, fd)
 			if !keepLabel {
 				fd.Label = ""
@@ -83,7 +83,7 @@ func Catalogue(syntax string) []Dev {
 	add("f1.place", "in-oneof-with-label", inOneof(true))
 	add("f1.place", "in-oneof-with-f3", func(ws *WS) {
 		m := M(ws)
-		f1, f3 := nthField(m, 0), nthField(m, 2)
+		f1, f3 := ws.AF[0], ws.AF[2]
 		f1.Label, f3.Label = "", ""
 		i := indexOf(m.Body, f1)
 		m.Body[i] = &Oneof{Name: "o", Fields: []*Field{f1, f3}}
@@ -179,7 +179,7 @@ func Catalogue(syntax string) []Dev {
 	er("0to5", &ExtRange{Ranges: [][2]int64{{0, 5}}})
 	er("19000to19999", &ExtRange{Ranges: [][2]int64{{19000, 19999}}})
 	// enum ME
-	ME := func(ws *WS) *Enum { return firstEnum(M(ws)) }
+	ME := func(ws *WS) *Enum { return ws.AME }
 	en := func(name string, apply func(e *Enum)) { add("ME", name, func(ws *WS) { apply(ME(ws)) }) }
 	val := func(e *Enum, i int) *EnumVal { return e.Body[i].(*EnumVal) }
 	en("ME1=0", func(e *Enum) { val(e, 1).Number = 0 })
@@ -204,7 +204,7 @@ func Catalogue(syntax string) []Dev {
 	en("deprecated", func(e *Enum) { e.Body = append([]any{&Option{"deprecated", "true"}}, e.Body...) })
 	// extension x1
 	if syntax != "proto3" {
-		X := func(ws *WS) *Field { return ws.Main().Ext().Fields[0] }
+		X := func(ws *WS) *Field { return ws.AX.Fields[0] }
 		for _, n := range []int64{99, 199, 200, 150} {
 			n := n
 			add("x1.number", fmt.Sprint(n), func(ws *WS) { X(ws).Number = n })
@@ -213,13 +213,13 @@ func Catalogue(syntax string) []Dev {
 		add("x1.label", "repeated", func(ws *WS) { X(ws).Label = "repeated" })
 		for _, e := range []string{"a.b.D", ".a.b.D", "b.D", "E", "M", "Nope", "D.N", "c.D"} {
 			e := e
-			add("x1.extendee", e, func(ws *WS) { ws.Main().Ext().Extendee = e })
+			add("x1.extendee", e, func(ws *WS) { ws.AX.Extendee = e })
 		}
 		add("x1.more", "second-tag-100", func(ws *WS) {
-			ws.Main().Ext().Fields = append(ws.Main().Ext().Fields, f(lab, "int32", "x2", 100))
+			ws.AX.Fields = append(ws.AX.Fields, f(lab, "int32", "x2", 100))
 		})
 		add("x1.more", "second-tag-101", func(ws *WS) {
-			ws.Main().Ext().Fields = append(ws.Main().Ext().Fields, f(lab, "string", "x2", 101))
+			ws.AX.Fields = append(ws.AX.Fields, f(lab, "string", "x2", 101))
 		})
 		add("x1.more", "nested-in-M-tag-100", func(ws *WS) {
 			M(ws).Body = append(M(ws).Body, &ExtBlock{Extendee: "D", Fields: []*Field{f(lab, "int32", "x2", 100)}})
@@ -237,7 +237,7 @@ func Catalogue(syntax string) []Dev {
 		})
 	}
 	// service
-	S := func(ws *WS) *Svc { return ws.Main().Svc() }
+	S := func(ws *WS) *Svc { return ws.AS }
 	for _, t := range []string{"E", "Nope", "D", "M.Inner", ".a.b.c.M", "a.P", "f1", "S"} {
 		t := t
 		add("S.input", t, func(ws *WS) { S(ws).Methods[0].In = t })
@@ -275,16 +275,154 @@ func Catalogue(syntax string) []Dev {
 	add("M.opts", "deprecated", func(ws *WS) { M(ws).Body = append([]any{&Option{"deprecated", "true"}}, M(ws).Body...) })
 	add("M.opts", "deprecated-int", func(ws *WS) { M(ws).Body = append([]any{&Option{"deprecated", "3"}}, M(ws).Body...) })
 	// nested message name clashes
-	add("Inner.name", "ME", func(ws *WS) { innerOf(M(ws)).Name = "ME" })
-	add("Inner.name", "f1", func(ws *WS) { innerOf(M(ws)).Name = "f1" })
-	add("Inner.name", "D", func(ws *WS) { innerOf(M(ws)).Name = "D" })
-	add("Inner.name", "M", func(ws *WS) { innerOf(M(ws)).Name = "M" })
+	add("Inner.name", "ME", func(ws *WS) { ws.AInner.Name = "ME" })
+	add("Inner.name", "f1", func(ws *WS) { ws.AInner.Name = "f1" })
+	add("Inner.name", "D", func(ws *WS) { ws.AInner.Name = "D" })
+	add("Inner.name", "M", func(ws *WS) { ws.AInner.Name = "M" })
 	add("M.name", "D", func(ws *WS) { M(ws).Name = "D"; S(ws).Methods[0].In = "D" })
 	add("M.name", "P", func(ws *WS) { M(ws).Name = "P"; S(ws).Methods[0].In = "P" })
 	add("dep.D", "renamed", func(ws *WS) { firstMsg(ws.File("dep.proto")).Name = "DD" })
 	add("second-message", "field-of-M", func(ws *WS) {
 		ws.Main().Decls = append(ws.Main().Decls, &Msg{Name: "M2", Body: []any{f(lab, "M", "m", 1), f(lab, "M.Inner", "n", 2), f(lab, "M.ME", "e", 3)}})
 	})
+	// sibling declarations that define names equal to names referenced elsewhere (scope leakage)
+	add("sibling", "service-before-with-rpcs-named-M-D", func(ws *WS) {
+		fl := ws.Main()
+		s0 := &Svc{Name: "S0", Methods: []*Method{{Name: "M", In: ".a.b.D", Out: ".a.b.D"}, {Name: "D", In: ".a.P", Out: ".a.P"}, {Name: "Inner", In: ".a.b.D", Out: ".a.P"}}}
+		i := indexOf(fl.Decls, any(S(ws)))
+		fl.Decls = append(append(append([]any(nil), fl.Decls[:i]...), s0), fl.Decls[i:]...)
+	})
+	add("sibling", "service-after-with-rpcs-named-M-D", func(ws *WS) {
+		ws.Main().Decls = append(ws.Main().Decls, &Svc{Name: "S9", Methods: []*Method{{Name: "M", In: ".a.b.D", Out: ".a.b.D"}, {Name: "D", In: ".a.P", Out: ".a.P"}}})
+	})
+	add("sibling", "message-before-with-nested-D-E-Inner", func(ws *WS) {
+		fl := ws.Main()
+		z := &Msg{Name: "Z", Body: []any{&Msg{Name: "D"}, &Msg{Name: "Inner"}, &Enum{Name: "E", Body: []any{&EnumVal{Name: "Z0", Number: 0}}}, f(lab, "D", "zd", 1), f(lab, "E", "ze", 2)}}
+		fl.Decls = append([]any{z}, fl.Decls...)
+	})
+	add("sibling", "message-after-with-nested-D-E-M", func(ws *WS) {
+		ws.Main().Decls = append(ws.Main().Decls, &Msg{Name: "Z", Body: []any{&Msg{Name: "D"}, &Msg{Name: "M"}, &Enum{Name: "E", Body: []any{&EnumVal{Name: "Z0", Number: 0}}}, f(lab, "M", "zm", 1), f(lab, ".a.b.c.M", "zm2", 2)}})
+	})
+	add("sibling", "enum-with-values-named-D-P", func(ws *WS) {
+		ws.Main().Decls = append(ws.Main().Decls, &Enum{Name: "ZE", Body: []any{&EnumVal{Name: "D", Number: 0}, &EnumVal{Name: "P", Number: 1}}})
+	})
+	add("sibling", "field-in-M-named-D", func(ws *WS) { M(ws).Body = append(M(ws).Body, f(lab, "int32", "D", 8)) })
+	add("sibling", "field-in-M-named-E-and-nested-msg-b", func(ws *WS) {
+		M(ws).Body = append(M(ws).Body, f(lab, "int32", "E", 8), &Msg{Name: "b", Body: []any{f(lab, "int32", "q", 1)}})
+	})
+	add("sibling", "inner-defines-D", func(ws *WS) {
+		in := ws.AInner
+		in.Body = append(in.Body, &Msg{Name: "D"}, f(lab, "D", "id", 2), f(lab, "M.Inner.D", "id2", 3), f(lab, "b.D", "id3", 4))
+	})
+	add("sibling", "nested-message-named-a", func(ws *WS) {
+		M(ws).Body = append(M(ws).Body, &Msg{Name: "a", Body: []any{f(lab, "int32", "q", 1)}}, f(lab, "a.b.D", "fa", 8))
+	})
+	add("sibling", "extension-in-M-named-like-field-D", func(ws *WS) {
+		if syntax == "proto3" {
+			return
+		}
+		M(ws).Body = append(M(ws).Body, &ExtBlock{Extendee: "D", Fields: []*Field{f(lab, "D", "D", 150)}})
+	})
+	// custom options: each deviation brings its own definitions (opt.proto) and import
+	optFile := func() *File {
+		return &File{Name: "opt.proto", Syntax: "proto2", Package: "o", Imports: []Import{{"google/protobuf/descriptor.proto", ""}}, Raw: `message OM { optional int32 a = 1; optional string b = 2; repeated int32 r = 3; optional OM m = 4; map<string, int32> mp = 5; extensions 100 to 200; }
+extend OM { optional int32 ome = 100; }
+enum OE { OE0 = 0; OE1 = 1; }
+extend google.protobuf.FileOptions { optional int32 flo = 50001; optional OM flm = 50002; }
+extend google.protobuf.MessageOptions { optional int32 mo = 50001; optional OM mm = 50002; repeated string mr = 50003; }
+extend google.protobuf.FieldOptions { optional int32 fo = 50001; optional OM fm = 50002; optional OE fe = 50003; repeated int32 fr = 50004; optional float ff = 50005; optional bytes fb = 50006; }
+extend google.protobuf.OneofOptions { optional int32 oo = 50001; }
+extend google.protobuf.EnumOptions { optional int32 eo = 50001; }
+extend google.protobuf.EnumValueOptions { optional int32 evo = 50001; optional OM evm = 50002; }
+extend google.protobuf.ServiceOptions { optional int32 so = 50001; }
+extend google.protobuf.MethodOptions { optional int32 mto = 50001; optional OM mtm = 50002; }
+extend google.protobuf.ExtensionRangeOptions { optional int32 ero = 50001; }
+`}
+	}
+	withOpt := func(name string, apply func(ws *WS)) {
+		add("custom", name, func(ws *WS) {
+			ws.Files = append([]*File{optFile()}, ws.Files...)
+			ws.Main().Imports = append(ws.Main().Imports, Import{"opt.proto", ""})
+			apply(ws)
+		})
+	}
+	fieldOpt := func(name string, opts ...Option) {
+		withOpt("field:"+name, func(ws *WS) { F(ws, "f1").Opts = append(F(ws, "f1").Opts, opts...) })
+	}
+	fieldOpt("scalar", Option{"(o.fo)", "1"})
+	fieldOpt("scalar-relative-name", Option{"(fo)", "1"})
+	fieldOpt("scalar-absolute-name", Option{"(.o.fo)", "1"})
+	fieldOpt("scalar-negative", Option{"(o.fo)", "-1"})
+	fieldOpt("scalar-overflow", Option{"(o.fo)", "2147483648"})
+	fieldOpt("scalar-string", Option{"(o.fo)", "\"x\""})
+	fieldOpt("scalar-twice", Option{"(o.fo)", "1"}, Option{"(o.fo)", "2"})
+	fieldOpt("unknown-name", Option{"(o.nope)", "1"})
+	fieldOpt("message-option-on-field", Option{"(o.mo)", "1"})
+	fieldOpt("aggregate", Option{"(o.fm)", "{ a: 1 b: \"x\" r: [1, 2] m { a: 2 } mp { key: \"k\" value: 3 } [o.ome]: 4 }"})
+	fieldOpt("aggregate-unknown-field", Option{"(o.fm)", "{ zz: 1 }"})
+	fieldOpt("aggregate-angle", Option{"(o.fm)", "< a: 1, b: 'y'; >"})
+	fieldOpt("path", Option{"(o.fm).a", "1"}, Option{"(o.fm).b", "\"x\""})
+	fieldOpt("path-nested", Option{"(o.fm).m.a", "1"}, Option{"(o.fm).m.m.b", "\"x\""})
+	fieldOpt("path-extension", Option{"(o.fm).(o.ome)", "5"})
+	fieldOpt("path-same-twice", Option{"(o.fm).a", "1"}, Option{"(o.fm).a", "2"})
+	fieldOpt("path-through-scalar", Option{"(o.fo).a", "1"})
+	fieldOpt("path-then-aggregate", Option{"(o.fm).a", "1"}, Option{"(o.fm)", "{ b: \"x\" }"})
+	fieldOpt("repeated", Option{"(o.fr)", "1"}, Option{"(o.fr)", "2"})
+	fieldOpt("repeated-path", Option{"(o.fm).r", "1"}, Option{"(o.fm).r", "2"})
+	fieldOpt("enum", Option{"(o.fe)", "OE1"})
+	fieldOpt("enum-number", Option{"(o.fe)", "1"})
+	fieldOpt("enum-unknown", Option{"(o.fe)", "OE9"})
+	fieldOpt("float-int", Option{"(o.ff)", "1"})
+	fieldOpt("float-inf", Option{"(o.ff)", "-inf"})
+	fieldOpt("float-nan", Option{"(o.ff)", "nan"})
+	fieldOpt("bytes", Option{"(o.fb)", "\"\\x00\\377a\""})
+	fieldOpt("with-builtin", Option{"deprecated", "true"}, Option{"(o.fo)", "3"}, Option{"json_name", "\"jj\""})
+	withOpt("file", func(ws *WS) { ws.Main().Options = append(ws.Main().Options, Option{"(o.flo)", "7"}, Option{"(o.flm).a", "1"}) })
+	withOpt("message", func(ws *WS) {
+		M(ws).Body = append([]any{&Option{"(o.mo)", "1"}, &Option{"(o.mm)", "{ a: 1 }"}, &Option{"(o.mr)", "\"a\""}, &Option{"(o.mr)", "\"b\""}}, M(ws).Body...)
+	})
+	withOpt("oneof", func(ws *WS) {
+		M(ws).Body = append(M(ws).Body, &Oneof{Name: "oz", Opts: []Option{{"(o.oo)", "1"}}, Fields: []*Field{f("", "int32", "q", 9)}})
+	})
+	withOpt("enum+value", func(ws *WS) {
+		e := ME(ws)
+		e.Body = append([]any{&Option{"(o.eo)", "1"}}, e.Body...)
+		for _, x := range e.Body {
+			if v, ok := x.(*EnumVal); ok {
+				v.Opts = append(v.Opts, Option{"(o.evo)", "2"}, Option{"(o.evm)", "{ b: \"v\" }"})
+			}
+		}
+	})
+	withOpt("service+method", func(ws *WS) {
+		S(ws).Opts = append(S(ws).Opts, Option{"(o.so)", "1"})
+		S(ws).Methods[0].Opts = append(S(ws).Methods[0].Opts, Option{"(o.mto)", "2"}, Option{"(o.mtm).m.a", "3"})
+	})
+	if syntax != "proto3" {
+		withOpt("extension-range", func(ws *WS) {
+			M(ws).Body = append(M(ws).Body, &ExtRange{Ranges: [][2]int64{{500, 600}}, Opts: []Option{{"(o.ero)", "1"}}})
+		})
+	}
+	// editions features (only meaningful on the edition base; on the others they must be rejected)
+	feat := func(level, name string, apply func(ws *WS)) { add("features."+level, name, apply) }
+	for _, fv := range [][2]string{{"field_presence", "EXPLICIT"}, {"field_presence", "IMPLICIT"}, {"field_presence", "LEGACY_REQUIRED"}, {"enum_type", "OPEN"}, {"enum_type", "CLOSED"},
+		{"repeated_field_encoding", "PACKED"}, {"repeated_field_encoding", "EXPANDED"}, {"utf8_validation", "VERIFY"}, {"utf8_validation", "NONE"},
+		{"message_encoding", "LENGTH_PREFIXED"}, {"message_encoding", "DELIMITED"}, {"json_format", "ALLOW"}, {"json_format", "LEGACY_BEST_EFFORT"}, {"field_presence", "NOPE"}} {
+		fv := fv
+		o := Option{"features." + fv[0], fv[1]}
+		if syntax != "2023" && !(fv[0] == "field_presence" && fv[1] == "IMPLICIT") {
+			continue // one representative is enough on the non-edition bases
+		}
+		feat("file", fv[0]+"="+fv[1], func(ws *WS) { ws.Main().Options = append(ws.Main().Options, o) })
+		feat("f1", fv[0]+"="+fv[1], func(ws *WS) { F(ws, "f1").Opts = append(F(ws, "f1").Opts, o) })
+		feat("f2", fv[0]+"="+fv[1], func(ws *WS) { F(ws, "f2").Opts = append(F(ws, "f2").Opts, o) })
+		feat("f3", fv[0]+"="+fv[1], func(ws *WS) { F(ws, "f3").Opts = append(F(ws, "f3").Opts, o) })
+		feat("M", fv[0]+"="+fv[1], func(ws *WS) { M(ws).Body = append([]any{&Option{o.Name, o.Value}}, M(ws).Body...) })
+		feat("ME", fv[0]+"="+fv[1], func(ws *WS) { e := ME(ws); e.Body = append([]any{&Option{o.Name, o.Value}}, e.Body...) })
+	}
+	if syntax == "2023" {
+		add("f1.type", "string-repeated", func(ws *WS) { F(ws, "f1").Type = "string"; F(ws, "f1").Label = "repeated" })
+		add("f1.label", "repeated-int", func(ws *WS) { F(ws, "f1").Label = "repeated" })
+	}
 	return out
 }
 
